@@ -53,6 +53,7 @@ fn main() {
     let rc = match args.prop.as_str() {
         "c15" => props::c15::run(&args),
         "c16" => props::c16::run(&args),
+        "ind" => props::ind::run(&args),
         other => {
             eprintln!("unknown property harness {other}");
             2
